@@ -57,3 +57,13 @@ def _kf_c02_c(t):
     # a pyarrow array of type null (all keys null): dictionary_encode keeps a null label
     return (t.get("out") == "ok" and t.get("cfg", {}).get("kcont") == "pa_null"
             and t["keys"] and all(k == [-999] for k in t["keys"]) and t.get("labels") == [[-999]])
+
+
+# ------------------------------------------------------------------------------------------ C09
+@finding("C09-bygroup-no-selected-row")
+def _kf_c09_a(t):
+    # group-sorted layout (index_by_groups=True -> GroupBy.apply) when no row at all is selected
+    # (every row masked out or null-keyed): apply() indexes results_per_value[0][0] of an empty list
+    judged = [1 for k, s in zip(t.get("keys", []), t.get("sel", [])) if k != -999 and s == 1]
+    return (t.get("out") == "raise" and t.get("exc") == "IndexError" and t.get("cfg", {}).get("layout") == "bygroup"
+            and not judged)
